@@ -28,6 +28,7 @@ def forests() -> list[tuple[list[Any], list[list[tuple]]]]:
         ([R("LTup", items=(L(1), R("LReq", child=L(2)), L(3)))], [[[], [("items", 0)], [("items", 1)], [("items", 1), ("child", None)], [("items", 2)]]]),
         ([R("LMix", {"v": 0}, first=L(1), items=(L(2), L(3)), one=L(4)), L(2)], [[[], [("first", None)], [("items", 1)], [("one", None)]], [[]]]),
         ([R("LList", elems=[L(1), R("LOpt", one=L(2))]), R("LOpt", one=None)], [[[], [("elems", 0)], [("elems", 1)], [("elems", 1), ("one", None)]], [[]]]),
+        ([R("LNarrow", only=L(1)), R("LTup", items=(L(2),))], [[[], [("only", None)]], [[], [("items", 0)]]]),
     ]
 
 
@@ -274,7 +275,7 @@ UNARY = [
     "wrap-tuple", "wrap-optional", "wrap-required", "wrap-list", "attach", "detach", "detach_self", "replace-property", "replace-noop", "replace-bad-key", "replace-forbidden-key",
     "replace_with-None", "duplicate", "duplicate-detached", "transform-inc", "transform-remove-even", "transform-raises", "transformer-inc", "transformer-remove", "transformer-fresh",
 ]
-BINARY = ["wrap-pair", "replace_with", "replace-child"]
+BINARY = ["wrap-pair", "replace_with", "replace-child", "transform-return-existing"]
 
 
 def apply_op(op: str, r: Any, a: Any) -> Any:
@@ -344,6 +345,14 @@ def apply_op(op: str, r: Any, a: Any) -> Any:
         return RemoveEven().transform(r)
     if op == "transform-raises":
         return Raises().transform(r)
+    if op == "transform-return-existing":
+        from pyoak.legacy.node import ASTTransformVisitor
+
+        class ReturnExisting(ASTTransformVisitor):
+            def visit_LLeaf(self, node):
+                return a
+
+        return ReturnExisting().transform(r)
     if op == "transformer-inc":
         return IncT().execute(r)
     if op == "transformer-remove":
@@ -351,6 +360,26 @@ def apply_op(op: str, r: Any, a: Any) -> Any:
     if op == "transformer-fresh":
         return FreshT().execute(r)
     raise ValueError(op)
+
+
+def _rejection_site(ex: BaseException) -> str:
+    """For the two wrapper errors, where the rejection arose: in replace_with's pre-checks (clean on
+    the pinned tree) or while attaching the replacement (the rollback path)."""
+    if type(ex).__name__ not in ("ASTNodeReplaceWithError", "ASTTransformError"):
+        return ""
+    cur: BaseException | None = ex
+    while cur is not None:
+        msg = str(cur)
+        if "Failed to attach the new node" in msg:
+            return "[attach-failed]"
+        if "expects" in msg or "has a parent already" in msg:
+            return "[pre-check]"
+        if cur is not ex and type(cur).__name__ in ("ASTNodeRegistryCollisionError", "ASTNodeParentCollisionError", "ASTNodeDuplicateChildrenError", "ASTNodeIDCollisionError"):
+            return "[construction-collision]"
+        if type(cur).__name__ == "RuntimeError" and "rule raises" in msg:
+            return "[rule-raised]"
+        cur = cur.__cause__ or cur.__context__
+    return "[other]"
 
 
 def describe_node(n: Any, handles: list[Any]) -> str:
@@ -362,6 +391,7 @@ def describe_node(n: Any, handles: list[Any]) -> str:
 
 STALE_LATER = ["attach", "detach", "replace_with-None", "replace-property"]
 STALE_LATER_QUICK = ["attach", "detach", "replace_with-None"]
+DETACHED_LATER = ["replace-property", "wrap-tuple", "wrap-required", "attach", "replace_with-None"]
 
 
 THIRD_OPS = ["attach", "detach", "detach_self", "replace_with-None", "replace-property", "replace-noop", "duplicate", "transform-remove-even", "transformer-inc"]
@@ -407,6 +437,11 @@ def make_harness(K: int, which: str, first_ops: list[str] | None = None, later_o
                 e.assume(False)
             if op == "replace-child" and (contains(a, r) or contains(r, a)):
                 e.assume(False)
+            if op == "transform-return-existing":
+                # the rule returns `a` for every leaf below r: with more than one leaf the history
+                # itself would put one object at two positions
+                if contains(a, r) or contains(r, a) or sum(1 for x in reachable([r]).values() if isinstance(x, LZ.LLeaf)) != 1:
+                    e.assume(False)
             text = f"{op}({', '.join(describe_node(x, handles) for x in (r, a) if x is not None)})"
             before = snapshot(handles + roots)
             known = reachable(handles + roots)
@@ -417,6 +452,7 @@ def make_harness(K: int, which: str, first_ops: list[str] | None = None, later_o
             except Exception as ex:  # noqa: BLE001
                 result = None
                 outcome = type(ex).__name__
+                rejection_site = _rejection_site(ex)
             history.append(f"{text} -> {outcome}")
             if outcome == "ok":
                 res = check_invariant(handles + roots + ([result] if isinstance(result, LZ.AwareASTNode) else []))
@@ -441,7 +477,7 @@ def make_harness(K: int, which: str, first_ops: list[str] | None = None, later_o
                 if which == "C19" and (changed or new_registered or any(reg_after.get(k) != v for k, v in reg_before.items())):
                     scenario.update(changed_observables=changed, newly_registered_ids=len(new_registered), registry_changed=any(reg_after.get(k) != v for k, v in reg_before.items()))
                     what = "+".join(changed) or "registry"
-                    e.fail(f"rejected-{op}:{outcome}:changed:{what}", scenario=scenario)
+                    e.fail(f"rejected-{op}:{outcome}{rejection_site}:changed:{what}", scenario=scenario)
                 if changed or new_registered:
                     e.assume(False)  # state already inconsistent by a (C19) rollback gap: stop here
                 e.count("rejected_operations")
